@@ -2491,7 +2491,10 @@ class Engine:
                 from .symdict import SymDict
                 if len(cur):
                     raise Unsupported('conversion of a non-empty concrete dict to a symbolic dict')
-                self.rebind(fr, name, SymDict.empty(t[1], t[2], name=name, default=t[3] if len(t) > 3 else None))
+                sd = SymDict.empty(t[1], t[2], name=name, default=t[3] if len(t) > 3 else None)
+                if type(cur).__name__ == 'DefaultDict':
+                    sd.autoviv = True      # collections.defaultdict(<mapping>): a missing outer key reads as an empty inner mapping
+                self.rebind(fr, name, sd)
         for b, a in sorted(attr_muts):
             obj = self.lookup_or_missing(b, fr)
             t = spec.types.get('%s.%s' % (b, a))
